@@ -106,7 +106,8 @@ def run_deriv(case):
         x.insert_deriv('a', dx)
         f = {'reciprocal': lambda: x.reciprocal(), 'log': lambda: x.log(), 'sqrt': lambda: x.sqrt(),
              'arcsin': lambda: x.arcsin(), 'pow': lambda: x ** case['expo'], 'unit': lambda: x.unit(),
-             'norm': lambda: x.norm(), 'exp': lambda: x.exp(check=True), 'arccos': lambda: x.arccos()}[op]
+             'norm': lambda: x.norm(), 'exp': lambda: x.exp(check=True), 'arccos': lambda: x.arccos(),
+             'qrecip': lambda: x.reciprocal()}[op]
     with warnings.catch_warnings(record=True) as w:
         warnings.simplefilter('always')
         try:
@@ -124,11 +125,12 @@ def impl(case):
         return ['warn', w[0]]
     op = case['op']
     if case.get('deriv'):
-        exact = op in ('div', 'reciprocal')
+        exact = op in ('div', 'reciprocal', 'qrecip') or (op == 'pow' and case.get('req') and case['req'][1] == 'recip_d')
         res = [obs(r, exact)]
         for key in (['a', 'b'] if op == 'div' else ['a']):
             d = r._derivs_.get(key)
-            res.append(obs(d, op in ('div', 'reciprocal', 'log')) if d is not None else 'no-deriv')
+            dexact = op in ('div', 'reciprocal', 'log') or (op == 'pow' and case.get('req') and case['req'][1] == 'recip_d')
+            res.append(obs(d, dexact) if d is not None else 'no-deriv')
         return res
     if op == 'pow' and case['req'] is not None and case['req'][1] in ('pow0D', 'powArr'):
         return obs(r, True, whole_expo(case))
@@ -149,8 +151,21 @@ def request(case):
     if case.get('deriv'):
         if op == 'div':
             return ['c02', 'div_d', [], W]
-        name = {'reciprocal': 'recip_d', 'log': 'log_d', 'sqrt': 'sqrt_d'}.get(op)
-        return ['c02', name, [], W] if name else None
+        name = {'reciprocal': 'recip_d', 'log': 'log_d', 'sqrt': 'sqrt_d', 'norm': 'norm_d', 'unit': 'unit_d',
+                'qrecip': 'qrecip_d'}.get(op)
+        if name:
+            return ['c02', name, [], W]
+        if op in ('arcsin', 'arccos'):
+            return ['c02', 'arcsin_d', [op == 'arccos'], W]
+        if op == 'pow':
+            ev = case['expo']
+            if ev == -1 and isinstance(ev, int):
+                return ['c02', 'recip_d', [], W]
+            if ev == 0.5:
+                return ['c02', 'sqrt_d', [], W]
+            if ev in (-2, 1.5, -1.5, 0.75):               # the generic branch (no easy power)
+                return ['c02', 'pow_d', [int(ev * 8)], W]
+        return None
     if op == 'div':
         if kinds[1] == 'number':
             return ['c02', 'div_num', [int(opds[1]['v8'][0])], [W[0]]]
@@ -392,7 +407,7 @@ def gen_cases(rng, tier):
             for s in G.SHAPES1:
                 x, dx = G.rand_opd(rng, 'S', s, 'base'), dop('S', s)
                 cases.append(mk({'op': 'pow', 'opds': [x, dx], 'deriv': True, 'expo': ev}))
-        for op, k in (('unit', 'V3'), ('norm', 'V3'), ('unit', 'V2')):
+        for op, k in (('unit', 'V3'), ('norm', 'V3'), ('unit', 'V2'), ('qrecip', 'Q'), ('norm', 'P')):
             for s in G.SHAPES1:
                 x, dx = G.rand_opd(rng, k, s), dop(k, s)
                 cases.append(mk({'op': op, 'opds': [x, dx], 'deriv': True}))
